@@ -61,3 +61,19 @@ CHECKS["C14"] = dict(
     level_text="Every externally visible step of the recorded deployment is a candidate crash point, in two flavours; sampled in quick, enumerated for a fifth of the cases in thorough. Crash = no further effect of the old process; torn writes inside etcd/bbolt are out of scope.",
     level_note="Trusted: rapid, the freeze (parked goroutines), lease revocation as the model of 'restart after the lock TTL', bbolt/etcd durability. A test process runs a bounded number of crash cases (frozen goroutines are leaked on purpose).",
     design_ref="DESIGN.md §3.2, §4 C14", assumptions=WORLD_ASSUME + ["the old instance's locks and sessions are gone when recovery runs (all etcd leases revoked)"])
+
+CHECKS["C29"] = dict(
+    pkg="cluster", tests=[T("TestC29", 150, 40000, shrinktime="45s")], level="exploration",
+    technique="property-based testing (rapid) with scripted engine faults: file transfers through the real rpc.Vibranium.Send (bufconn, real chunking) and through Calcium.SendLargeFile with harness chunking, against the fake engine's record of what was written",
+    rule="1-4 workloads, 1-4 targets (existing / missing / duplicated ids), per-target engine script (read all / fail at once / fail after k bytes), file size in {0, 1, chunk-1, chunk, chunk+1, 2 chunks, 11 chunks+3, 13 chunks, 24 chunks+1, random <= 64 KiB}, uid/gid/mode, 1-2 files (rpc) or one file with chunk size in {1,7,100,512,2048,4096} (direct); oracle: the call finishes (10 s watchdog against milliseconds, retried once), exactly one result per distinct target and file, successes hold byte-identical content with the requested owner and mode, failures are reported for missing/failing targets only. Non-trivial = size > 1 chunk or a missing/failing/duplicated target; distinct by hash of the case",
+    level_text="Random search over sizes, target sets and engine behaviours on the real code paths (gRPC front end included).",
+    level_note="Trusted: rapid, the fake engine (it checks the declared size like a tar header would). The 10 s bound is the 'always finishes' oracle: a single expiry is re-run, only a reproduction counts.",
+    design_ref="DESIGN.md §4 C29", assumptions=WORLD_ASSUME)
+
+CHECKS["C30"] = dict(
+    pkg="cluster", tests=[T("TestC30", 150, 40000, shrinktime="45s")], level="exploration",
+    technique="property-based testing (rapid) with scripted engine outcomes for logs / attach / wait and optional create-time faults on the un-mocked world; oracle on the message stream, the store, the fake engine, the raw usage record and a scan of the bbolt WAL file",
+    rule="RunAndWait with count 1-3 (stdin only with count 1), per-container script: 0-6 (10%: 300+) stdout lines, 0-3 stderr lines, exit code in {0,1,2,137,255}, or a failure to fetch logs / attach / wait; 25% with one injected create-time failure; oracle: stream closes (30 s watchdog, retried once); per workload the exit code (or the engine error) is the last message and every scripted line arrived intact before it; afterwards no workload record, no container, usage equal to the pre-call record, WAL file holds no event. Non-trivial = count >= 2 or an engine/create failure; distinct by hash of the case",
+    level_text="Random requests and engine outcomes on the real lambda path including its asynchronous clean-up; WAL state is read from the file with the exported kv.Lithium after closing the instance.",
+    level_note="Trusted: rapid, the fake engine's scripted streams, the WAL scan.",
+    design_ref="DESIGN.md §4 C30", assumptions=WORLD_ASSUME)
